@@ -89,3 +89,17 @@ def fits_last(c: "list[Node]", k: int) -> bool:
 def odfit(s: "Slice") -> bool:
     """the slice is not open deeper than its content"""
     return s.open_start >= 0 and s.open_end >= 0 and fits_first(s.content.content, s.open_start) and fits_last(s.content.content, s.open_end)
+
+
+def dvalid(n: "Node") -> bool:
+    """the node and everything below it is valid: its children match its type's content expression to
+    a valid end, carry only marks the type allows, and are themselves deeply valid.  (A text node has
+    no content; whether its marks are allowed is judged by its parent.)"""
+    if n.type.is_text:
+        return True
+    return valid_seq(n.type, n.content.content) and fvalid(n.content.content)
+
+
+def fvalid(c: "list[Node]") -> bool:
+    """every node of the list is deeply valid"""
+    return all_(0, len(c), lambda j: dvalid(c[j]))
